@@ -16,6 +16,8 @@ type pspec struct {
 	fail              string
 	slow              string
 	ek                string // "" (plain errors) | "dl" (errors caused by the component's own context.DeadlineExceeded)
+	rg                string // "" | a registered gun factory (real.go)
+	su                string // "" (all instances at once) | step<ms> | inf<ms>
 }
 
 func basePool() pspec {
@@ -28,12 +30,26 @@ func (p pspec) String() string {
 	if p.ek != "" {
 		s += ",ek:" + p.ek
 	}
+	if p.rg != "" {
+		s += ",rg:" + p.rg
+	}
+	if p.su != "" {
+		s += ",su:" + p.su
+	}
 	return s
 }
 
 func line(cancel string, rep int, pools ...pspec) string {
+	return lineX(cancel, "", rep, pools...)
+}
+
+// lineX: extra = further top-level tokens (hold=… cli=… sig=…)
+func lineX(cancel, extra string, rep int, pools ...pspec) string {
 	var b strings.Builder
 	fmt.Fprintf(&b, "pools=%d cancel=%s rep=%d", len(pools), cancel, rep)
+	if extra != "" {
+		b.WriteString(" " + extra)
+	}
 	for i, p := range pools {
 		fmt.Fprintf(&b, " p%d=%s", i, p.String())
 	}
@@ -43,12 +59,13 @@ func line(cancel string, rep int, pools ...pspec) string {
 type planT struct {
 	cancel string
 	pools  []pspec
-	weight int // 0 = normal repetition, 1 = expensive (hang-prone / slow): few repetitions
+	weight int    // 0 = normal repetition, 1 = expensive (hang-prone / slow): few repetitions
+	extra  string // hold=… cli=… sig=…
 }
 
 func systematic() []planT {
 	var out []planT
-	add := func(cancel string, w int, pools ...pspec) { out = append(out, planT{cancel, pools, w}) }
+	add := func(cancel string, w int, pools ...pspec) { out = append(out, planT{cancel: cancel, pools: pools, weight: w}) }
 	with := func(f func(p *pspec)) pspec { p := basePool(); f(&p); return p }
 
 	// clean runs: out-of-ammo ending, schedule ending, shared schedule, 0..3 instances
@@ -176,7 +193,7 @@ func systematic() []planT {
 	add("warm", 0, with(func(p *pspec) { p.fail = "warmup" }))
 	// promptness: a component that ignores its context for a while after the cancel
 	for _, s := range []string{"prov", "agg", "shot"} {
-		add("shot1", 1, with(func(p *pspec) { p.slow = s; p.ammo = 6; p.shots = 6 }))
+		add("shot1", 5, with(func(p *pspec) { p.slow = s; p.ammo = 6; p.shots = 6 }))
 	}
 
 	// two pools
@@ -315,6 +332,15 @@ func randomPlan(r *rand.Rand) planT {
 			}
 			p.fail = strings.Join(uniq, "+")
 		}
+		if r.Intn(6) == 0 {
+			p.su = []string{"step1", "step3", "inf2"}[r.Intn(3)]
+			if p.su == "inf2" && p.ammo < 0 {
+				p.su = "step1" // endless ammo and an endless start never end on their own
+			}
+		}
+		if r.Intn(12) == 0 {
+			p.rg = []string{"http", "hs"}[r.Intn(2)]
+		}
 		pl.pools = append(pl.pools, p)
 	}
 	if r.Intn(3) == 0 {
@@ -327,21 +353,48 @@ func randomPlan(r *rand.Rand) planT {
 	return pl
 }
 
-func gen(r *rand.Rand, tier string) []string {
-	reps, few, nrand, randReps := 24, 2, 60, 6
+// repetitions of one plan by weight: 0 = the runtime's select orders are sampled (many), 1 = expensive plans, 2 = plans
+// of round 2 that run in the plain worker, 3 / 4 = plans whose interleaving is forced (instrumented worker)
+func repsOf(weight int, tier string) int {
+	q, t := 24, 400
+	switch weight {
+	case 1:
+		q, t = 2, 6
+	case 2:
+		q, t = 6, 40
+	case 3:
+		q, t = 1, 3
+	case 4:
+		q, t = 3, 12
+	case 5: // a component that ignores its context for 2 s
+		q, t = 1, 6
+	}
 	if tier == "thorough" {
-		reps, few, nrand, randReps = 400, 6, 1500, 12
+		return t
+	}
+	return q
+}
+
+func gen(r *rand.Rand, tier string) []string {
+	nrand, randReps := 60, 6
+	if tier == "thorough" {
+		nrand, randReps = 1500, 12
+	}
+	// the instrumented worker is built while the plain worker runs the cases that do not need it
+	pts, scanErr := instrScan()
+	if scanErr == "" {
+		instrStart()
 	}
 	var out []string
-	for _, pl := range systematic() {
-		n := reps
-		if pl.weight == 1 {
-			n = few
-		}
-		for k := 0; k < n; k++ {
-			out = append(out, line(pl.cancel, k, pl.pools...))
+	emit := func(pls []planT) {
+		for _, pl := range pls {
+			for k := 0; k < repsOf(pl.weight, tier); k++ {
+				out = append(out, lineX(pl.cancel, pl.extra, k, pl.pools...))
+			}
 		}
 	}
+	emit(systematic())
+	emit(plainRound2())
 	for i := 0; i < nrand; i++ {
 		pl := randomPlan(r)
 		for k := 0; k < randReps; k++ {
@@ -354,6 +407,9 @@ func gen(r *rand.Rand, tier string) []string {
 				out = append(out, line(pl.cancel, k, pl.pools...))
 			}
 		}
+	}
+	if scanErr == "" {
+		emit(instrRound2(pointSet(pts), r, tier))
 	}
 	return out
 }
@@ -381,11 +437,30 @@ func class(input, obs string) string {
 				tags = append(tags, t)
 			case strings.HasSuffix(t, ".ctxw"):
 				tags = append(tags, t)
+			case strings.HasPrefix(t, "rg:") || strings.HasPrefix(t, "su:"):
+				tags = append(tags, t)
 			}
 		}
 	}
 	if c := kv["cancel"]; c != "" && c != "none" {
+		if strings.HasPrefix(c, "at:") {
+			// the function the point is in
+			f := c[3:]
+			if j := strings.LastIndexByte(f, '.'); j > 0 {
+				f = f[:j]
+			}
+			c = "at:" + f
+		}
 		tags = append(tags, "cancel:"+c)
+	}
+	if kv["hold"] != "" {
+		tags = append(tags, "hold")
+	}
+	if v := kv["cli"]; v != "" {
+		tags = append(tags, "cli:"+v)
+		if kv["sig"] != "" {
+			tags = append(tags, "sig-at-point")
+		}
 	}
 	if len(tags) == 0 {
 		return ""
